@@ -210,7 +210,7 @@ ImplDiag(V, ad, tree) == ConcatAll([i \in 1..Len(tree) |-> ImplDiagLeaf(V, ad, t
 
 -----------------------------------------------------------------------------
 (* concrete values used by the replay and for the pseudo-inverse           *)
-Primes == <<2, 3, 5, 7, 11, 13, 17, 19, 23>>
+Primes == <<2, 3, 5, 7, 11, 13, 17, 19, 23, 29, 31, 37, 41, 43, 47, 53, 59, 61, 67, 71, 73, 79, 83, 89, 97, 101, 103>>
 \* values.ravel() of the probes: distinct primes / the same with zeros and negative entries
 ValP(V) == [f \in 1..ProdSeq(V) |-> Primes[f]]
 ValZ(V) == [f \in 1..ProdSeq(V) |-> IF f % 3 = 2 THEN 0 ELSE IF f % 3 = 0 THEN -Primes[f] ELSE Primes[f]]
